@@ -164,7 +164,7 @@ def parse_roundtrip_model(ints, n):
     rd = Rd(ints)
     if rd.z() != 1:
         return {"status": "model-error", "code": ints[0]}
-    o = {"status": "ok", "valid": bool(rd.z()), "K_memo": bool(rd.z())}
+    o = {"status": "ok", "valid": bool(rd.z())}
     o["afs"] = [rd.aff() for _ in range(n)]
     o["header"], o["rows"] = rd.table()
     st = rd.z()
